@@ -558,3 +558,82 @@ PROPS['C14'] = dict(
     extra_coverage={'observation_vectors': lambda agg, d: agg['counters'].get('observation_vectors', 0), 'key_lookups': lambda agg, d: agg['counters'].get('key_lookups', 0)},
     must_observe={'observation vectors': lambda agg, d: agg['counters'].get('observation_vectors', 0) > 0},
 )
+
+
+# ---------------------------------------------------------------- C19
+def c19_cfg(sid, cap, ipc, sls, **extra):
+    d = {'ARDUINOJSON_SLOT_ID_SIZE': sid, 'ARDUINOJSON_POOL_CAPACITY': cap, 'ARDUINOJSON_INITIAL_POOL_COUNT': ipc, 'ARDUINOJSON_STRING_LENGTH_SIZE': sls}
+    d.update(extra)
+    return d
+
+
+C19_QUICK = [c19_cfg(4, 256, 4, 2), c19_cfg(2, 128, 4, 2), c19_cfg(1, 16, 4, 1), c19_cfg(1, 2, 1, 1, ARDUINOJSON_DEBUG=1), c19_cfg(2, 3, 2, 4),
+             c19_cfg(1, 100, 3, 2), c19_cfg(2, 16, 1, 1), c19_cfg(4, 2, 2, 1, ARDUINOJSON_DEBUG=1)]
+C19_MORE = [c19_cfg(1, 128, 4, 1), c19_cfg(1, 256, 4, 2), c19_cfg(1, 3, 3, 1), c19_cfg(1, 16, 2, 4), c19_cfg(2, 100, 3, 2), c19_cfg(2, 256, 1, 1), c19_cfg(2, 2, 4, 2, ARDUINOJSON_DEBUG=1),
+            c19_cfg(4, 3, 1, 2), c19_cfg(4, 16, 3, 4), c19_cfg(4, 100, 2, 1), c19_cfg(4, 128, 1, 4), c19_cfg(1, 128, 3, 2), c19_cfg(1, 100, 1, 1), c19_cfg(2, 128, 2, 4, ARDUINOJSON_DEBUG=1)]
+
+
+def c19_name(cfg):
+    return 'id%d-cap%d-ipc%d-len%d%s' % (cfg['ARDUINOJSON_SLOT_ID_SIZE'], cfg['ARDUINOJSON_POOL_CAPACITY'], cfg['ARDUINOJSON_INITIAL_POOL_COUNT'], cfg['ARDUINOJSON_STRING_LENGTH_SIZE'], '-dbg' if cfg.get('ARDUINOJSON_DEBUG') else '')
+
+
+def c19_jobs(tier):
+    cfgs = C19_QUICK if tier == 'quick' else C19_QUICK + C19_MORE
+    jobs = []
+    for cfg in cfgs:
+        n = c19_name(cfg)
+        jobs.append(Job('digest-' + n, 'c19', 'digest', q(tier, 6000, 60000), defines=cfg, timeout=q(tier, 900, 7200), single_timeout=60))
+        big = cfg['ARDUINOJSON_SLOT_ID_SIZE'] == 2   # filling 65535 slots per case
+        jobs.append(Job('limit-' + n, 'c19', 'limit', q(tier, 32 if big else 240, 320 if big else 2400), defines=cfg, flavour='asan2' if big else 'asan', timeout=q(tier, 900, 7200), single_timeout=120))
+    return jobs
+
+
+def c19_post(jobs, records):
+    """Offline checker: identical observation digests for every history that stays below the limits of two configurations."""
+    by_index = {}
+    jobmap = {j.name: j for j in jobs}
+    for jn, recs in records.items():
+        if not jn.startswith('digest-'):
+            continue
+        for r in recs:
+            by_index.setdefault(r['index'], []).append((jn, r))
+    viol, compared, pairs = [], 0, 0
+    for idx, lst in sorted(by_index.items()):
+        below = [(jn, r) for jn, r in lst if r.get('below')]
+        if len(below) < 2:
+            continue
+        compared += 1
+        pairs += len(below) - 1
+        ref_jn, ref = below[0]
+        for jn, r in below[1:]:
+            if r['digest'] != ref['digest'] or r['steps'] != ref['steps']:
+                j = jobmap[jn]
+                viol.append(dict(j.ident(), index=idx, clause='geometry-dependent-result',
+                                 detail='history %d (needs %d slots, strings of %d bytes) gives observation digest %s after %d steps under %s but %s after %d steps under %s' % (
+                                     idx, r['demand'], r['maxstr'], r['digest'], r['steps'], jn, ref['digest'], ref['steps'], ref_jn),
+                                 witness='replay the same index under both configurations'))
+                break
+    return viol, {'histories_compared_across_configurations': compared, 'configuration_pairs_compared': pairs}
+
+
+PROPS['C19'] = dict(
+    level='exploration',
+    rule='one engine binary per configuration (slot ids of 1/2/4 bytes x pool capacities 2,3,16,100,128,256 x 1..4 inline pools x string lengths of 1/2/4 bytes: 8 builds quick, 22 thorough). '
+         '(1) the same histories (C04 generator: same seed => same operations in every build; documents of up to 20..200 nodes) are replayed in every build, judged by the model at each step, and a digest of everything '
+         'observable (serializeJson, serializeMsgPack, measure*, size, nesting, return values) is recorded; an offline checker demands identical digests in all builds for which the history stays below the limits '
+         '(slot demand and string lengths computed from the model); a failure below the limit is a violation in itself. (2) limit workloads: arrays/objects filled with each value kind to limit-1, limit, limit+1 slots, '
+         'one string shared by every slot and released one by one, strings of max-2..max+3 bytes through set(), keys, serialized(), deserializeJson and deserializeMsgPack; at the limit: refusal reported, overflowed(), '
+         'accepted content intact, inspector invariants (no id >= NULL_SLOT, pools <= maxPools, no slot reachable twice), usable after removals and after clear(). distinct = history / limit scenario',
+    jobs=c19_jobs,
+    post=c19_post,
+    min_evaluations=dict(quick=40000, thorough=1000000),
+    technique='differential runtime monitoring across build configurations: identical generated histories executed in N differently configured builds under ASan+UBSan, observation digests compared offline; boundary workloads at every capacity limit',
+    level_text='Exploration (differential across configurations) plus boundary workloads; builds dominate the cost.',
+    level_note='The configurations exercised are those of the matrix above; "supported" is read as "accepted by the library\'s own static checks".',
+    assumptions=COMMON_ASSUME,
+    extra_coverage={'histories_compared_across_configurations': lambda agg, d: agg['counters'].get('histories_compared_across_configurations', 0),
+                    'configuration_pairs_compared': lambda agg, d: agg['counters'].get('configuration_pairs_compared', 0),
+                    'limit_fills': lambda agg, d: agg['counters'].get('limit_fills', 0)},
+    must_observe={'cross-configuration comparisons': lambda agg, d: agg['counters'].get('histories_compared_across_configurations', 0) > 0,
+                  'limit workloads': lambda agg, d: agg['counters'].get('limit_fills', 0) > 0},
+)
